@@ -112,7 +112,7 @@ func checkC20(c *km.Ctx) {
 	}
 	served := reachableFrom(c, nil, roots...)
 	for _, fn := range c.P.AllFuncs {
-		if fn.Pkg == nil || fn.Pkg.Pkg.Path() != KMD || !served[fn] {
+		if fn.Pkg == nil || !pkgIsKMD(fn.Pkg) || !served[fn] {
 			continue
 		}
 		for _, ci := range km.CallsIn(fn) {
@@ -207,7 +207,7 @@ func checkC20(c *km.Ctx) {
 					continue
 				}
 				if depth < 2 {
-					if g := km.StaticCallee(ci.Common()); g != nil && g.Blocks != nil && g.Pkg != nil && g.Pkg.Pkg.Path() == KMD && !isHandler[g] && g != fn {
+					if g := km.StaticCallee(ci.Common()); g != nil && g.Blocks != nil && g.Pkg != nil && pkgIsKMD(g.Pkg) && !isHandler[g] && g != fn {
 						for m, k := range count(g, top, depth+1) {
 							out[m] += k
 						}
